@@ -34,29 +34,32 @@ def uni2tex(text):
         0x030C: "v",
     }
     out = ""
-    txt = tuple(text)
-    i = 0
-    while i < len(txt):
-        char = text[i]
+    # the current cluster: a base character plus the marks seen so far
+    cluster = ""
+    for char in text:
         code = ord(char)
-
-        # combining marks
-        if unicodedata.category(char) in ("Mn", "Mc") and code in accents:
-            out += "\\%s{%s}" % (accents[code], txt[i + 1])
-            i += 1
-        # precomposed characters
-        elif unicodedata.decomposition(char):
-            base, acc = unicodedata.decomposition(char).split()
-            acc = int(acc, 16)
-            base = int(base, 16)
-            if acc in accents:
-                out += "\\%s{%s}" % (accents[acc], chr(base))
-            else:
-                out += char
+        decomp = unicodedata.decomposition(char).split()
+        # combining marks follow the character they modify
+        if code in accents and cluster:
+            cluster = "\\%s{%s}" % (accents[code], cluster)
+        # other combining marks stay attached to their base
+        elif unicodedata.combining(char) and cluster:
+            cluster += char
         else:
-            out += char
-        i += 1
-    return out
+            out += cluster
+            # precomposed characters: canonical base + accent pairs
+            if (
+                len(decomp) == 2
+                and not decomp[0].startswith("<")
+                and int(decomp[1], 16) in accents
+            ):
+                cluster = "\\%s{%s}" % (
+                    accents[int(decomp[1], 16)],
+                    chr(int(decomp[0], 16)),
+                )
+            else:
+                cluster = char
+    return out + cluster
 
 
 def get_latex_fontdoc(text, fontsize="11pt", preamble=""):
